@@ -25,6 +25,8 @@ fn engine(id: &str, tier: &str, replay: Option<&serde_json::Value>) -> Option<gv
         ("C08", Some(v)) => c08::replay(v),
         ("C09", None) => c09::run(tier),
         ("C09", Some(v)) => c09::replay(v),
+        ("C05", None) => c05::run(tier),
+        ("C05", Some(v)) => c05::replay(v),
         ("C04", None) => c04::run(tier),
         ("C04", Some(v)) => c04::replay(v),
         _ => return None,
@@ -59,6 +61,7 @@ fn main() {
     if args.get(1).map(|s| s.as_str()) == Some("worker") {
         record_panics();
         match args.get(2).map(|s| s.as_str()) {
+            Some("c05") => gv::isolate::worker_loop(gv::engines::c05::worker),
             Some("c12") => gv::isolate::worker_loop(gv::engines::c12::worker),
             Some("c16") => gv::isolate::worker_loop(gv::engines::c16::worker),
             Some("c17") => gv::isolate::worker_loop(gv::engines::c17::worker),
